@@ -17,7 +17,7 @@
     ALL models, environments and states; numbers are exact rationals. *)
 From Coq Require Import QArith Qabs Permutation.
 From MxlBase Require Import ListX.
-From Symbolic Require Import Expr ExprProofs SymModel FnTab GenSymFacts SymProofs ClosureProofs Witness SurrProofs SignFold SignFoldProofs.
+From Symbolic Require Import Expr ExprProofs SymModel FnTab GenSymFacts SymProofs ClosureProofs Witness SurrProofs StatProofs SignFold SignFoldProofs.
 Open Scope Q_scope.
 
 Theorem C12_facts_pinned :
@@ -27,18 +27,66 @@ Print Assumptions C12_facts_pinned.
 
 (** (1) Whenever the conversion returns equations, they evaluate -- at every state and parameter
     setting -- to the numeric right-hand side (the sums over the cache's coefficient tables the
-    numeric model uses), in variable order.  Holds for EVERY value of the facts: whichever order
-    the derived values are converted in, a returned result is never wrong. *)
+    numeric model uses), in variable order.  Holds for EVERY value of the other facts: whichever order
+    the derived values are converted in, a returned result is never wrong.
+    (Statement changed in the closing pass for seeded change C12-9: the coefficient of the static statement became
+    a modelled alternative -- Float(n), shipped, or Rational(n).limit_denominator() -- and the statement is about the
+    shipped one (hypothesis on the fact, met by gen_sym_facts: C12_facts_pinned); under the other it holds for small
+    denominators only and is refuted otherwise: C12_rational_coefficients_partial / _refuted below.) *)
 Theorem C12_eqs_equal_rhs :
   forall (fsym : fnid -> list expr -> option expr) (fsem : fnid -> list Q -> Q),
     (forall f es e env, fsym f es = Some e -> eval env e == fsem f (map (eval env) es)) ->
     (forall f vs ws, Forall2 Qeq vs ws -> fsem f vs == fsem f ws) ->
     forall (env : name -> Q) (F : sym_facts) (m : smodel) (eqs : list expr),
+      sf_stat F = StatFloatTimesRate ->       (* the shipped static statement: the coefficient itself *)
       Resolved fsem m env ->
       to_symbolic fsym F m = SymOk eqs ->
       Forall2 (fun e v => eval env e == num_rhs fsem m env v) eqs (m_vars m).
-Proof. exact to_symbolic_sound. Qed.
+Proof. exact float_sound. Qed.
 Print Assumptions C12_eqs_equal_rhs.
+
+(** regression theorems for the seeded change C12-9 (fact StatRationalLimited:
+    coef = sympy.Rational(stoich_value).limit_denominator(), the nearest fraction with denominator <= 10^6).
+    FULL STATEMENT (false under that fact): as C12_eqs_equal_rhs.  What remains true: models all of whose static
+    coefficients have a denominator <= 10^6 in lowest terms (1, 2, 1/2, 1/3, 0.1 ...) -- why ordinary
+    stoichiometries do not show the change: *)
+Theorem C12_rational_coefficients_partial :
+  forall (fsym : fnid -> list expr -> option expr) (fsem : fnid -> list Q -> Q),
+    (forall f es e env, fsym f es = Some e -> eval env e == fsem f (map (eval env) es)) ->
+    (forall f vs ws, Forall2 Qeq vs ws -> fsem f vs == fsem f ws) ->
+    forall (env : name -> Q) (F : sym_facts) (m : smodel) (eqs : list expr),
+      sf_stat F = StatRationalLimited ->
+      (forall cpd row r n, In (cpd, row) (m_stoich m) -> In (r, n) row -> (Z.pos (Qden (Qred n)) <= 1000000)%Z) ->
+      Resolved fsem m env ->
+      to_symbolic fsym F m = SymOk eqs ->
+      Forall2 (fun e v => eval env e == num_rhs fsem m env v) eqs (m_vars m).
+Proof. exact rational_small_denominators_sound. Qed.
+Print Assumptions C12_rational_coefficients_partial.
+
+(** ... and refuted by a unit-conversion factor: w7 = a medium pool x1 taken up with rate k*x1 and stoichiometry
+    {x1: -3e-7, x2: 1}.  CPython's limit_denominator (modelled statement by statement, SymModel.limit_den) maps
+    3e-7 to 0, 1.3e-6 to 1/769231, -7e-7 to -1/10^6, 2^-21 to 0.  At x1 = 5, k = 4 the numeric right-hand side is
+    [-3/500000; 20] and the shipped statement's equations evaluate to exactly that, Jacobian [[-3/2500000; 0]; [4; 0]];
+    with the rational statement the equation of x1 IS 0 and the reaction has vanished from its Jacobian row. *)
+Theorem C12_rational_coefficients_refuted :
+  sf_stat facts_rational = StatRationalLimited /\
+  (limit_den (3 # 10000000) = Some (0 # 1) /\
+   limit_den (-(3 # 10000000)) = Some (0 # 1) /\
+   limit_den (13 # 10000000) = Some (1 # 769231) /\
+   limit_den (-(7 # 10000000)) = Some (-1 # 1000000) /\
+   limit_den (1 # 2097152) = Some (0 # 1) /\
+   limit_den (1 # 3) = Some (1 # 3) /\ limit_den (-(3 # 2)) = Some (-(3 # 2))) /\
+  Resolved fsem_lib w7 w7_env /\
+  (exists eqs, to_symbolic fsym_lib gen_sym_facts w7 = SymOk eqs /\
+     qlist_eqb (map (eval w7_env) eqs) (map (num_rhs fsem_lib w7 w7_env) (m_vars w7)) = true /\
+     qlist_eqb (map (eval w7_env) eqs) [-(3 # 500000); 20] = true /\
+     qmat_eqb (map (map (eval w7_env)) (jacobian D eqs (m_vars w7))) [[-(3 # 2500000); 0]; [4; 0]] = true) /\
+  (exists eqs, to_symbolic fsym_lib facts_rational w7 = SymOk eqs /\
+     qlist_eqb (map (eval w7_env) eqs) [0; 20] = true /\
+     qmat_eqb (map (map (eval w7_env)) (jacobian D eqs (m_vars w7))) [[0; 0]; [4; 0]] = true /\
+     ~ Forall2 (fun e v => eval w7_env e == num_rhs fsem_lib w7 w7_env v) eqs (m_vars w7)).
+Proof. exact (conj eq_refl (conj limit_den_examples (conj w7_resolved (conj w7_shipped w7_rational)))). Qed.
+Print Assumptions C12_rational_coefficients_refuted.
 
 (** (1') ... and to the right-hand side computed from the model's OWN stoichiometries with every
     computed coefficient at its current value (Model.__call__), where the tables are what
@@ -54,6 +102,7 @@ Theorem C12_every_parameter_setting_partial :
     (forall f vs ws, Forall2 Qeq vs ws -> fsem f vs == fsem f ws) ->
     forall (env : name -> Q) (parnames : list name) (env0 : name -> Q)
            (F : sym_facts) (m : smodel) (raw : raw_stoich) (eqs : list expr),
+      sf_stat F = StatFloatTimesRate ->
       m_stoich m = fst (build_tables fsem parnames env0 raw) ->
       m_dyn m = snd (build_tables fsem parnames env0 raw) ->
       (forall rxn sto cpd f, In (rxn, sto) raw -> In (cpd, f) sto ->
@@ -65,7 +114,10 @@ Theorem C12_every_parameter_setting_partial :
       Resolved fsem m env ->
       to_symbolic fsym F m = SymOk eqs ->
       Forall2 (fun e v => eval env e == raw_rhs fsem env raw v) eqs (m_vars m).
-Proof. exact every_parameter_setting_partial. Qed.
+Proof.
+  exact (fun fsym fsem H1 H2 env parnames env0 F m raw eqs HF =>
+    every_parameter_setting_partial fsym fsem H1 H2 env parnames env0 F m raw eqs (stat_view_float F m HF)).
+Qed.
 Print Assumptions C12_every_parameter_setting_partial.
 
 Theorem C12_every_parameter_setting_refuted :
@@ -104,6 +156,7 @@ Theorem C12_jacobian_is_derivative :
     (forall x e env, eval env (sdiff x e) == eval env (D x e)) ->
     forall (F : sym_facts) (m : smodel) (eqs : list expr) (env : name -> Q),
       sf_symtab F = SymVarsParsData ->       (* the shipped symbol table: variables | parameters | data *)
+      sf_stat F = StatFloatTimesRate ->      (* the shipped static statement (see C12_eqs_equal_rhs) *)
       to_symbolic fsym F m = SymOk eqs -> Resolved fsem m env ->
       forall i j vi xj, nth_error (m_vars m) i = Some vi -> nth_error (m_vars m) j = Some xj ->
       exists row d, nth_error (jacobian sdiff eqs (m_vars m)) i = Some row /\ nth_error row j = Some d /\
@@ -111,7 +164,10 @@ Theorem C12_jacobian_is_derivative :
           forall h env', Qabs h <= 1 -> Resolved fsem m env' ->
             (forall n, In n (base_names m) -> env' n == upd env xj (env xj + h) n) ->
             Qabs (num_rhs fsem m env' vi - num_rhs fsem m env vi - h * eval env d) <= B * (h * h).
-Proof. exact jacobian_is_derivative. Qed.
+Proof.
+  exact (fun fsym fsem sdiff H1 H2 H3 H4 F m eqs env HFt HFs =>
+    jacobian_is_derivative fsym fsem sdiff H1 H2 H3 H4 F m eqs env HFt (stat_view_float F m HFs)).
+Qed.
 Print Assumptions C12_jacobian_is_derivative.
 
 (** the formal derivative used above is THE derivative (exact Taylor identity, uniform remainder) *)
@@ -295,7 +351,7 @@ Theorem C12_any_declaration_order :
     exists eqs, to_symbolic fsym gen_sym_facts m = SymOk eqs.
 Proof.
   exact (fun fsym m H1 H2 H3 H4 H5 H6 O1 O2 =>
-    convertible_converts fsym m (Build_Convertible fsym m H1 H2 H3 H4 H5 H6) (conj O1 O2) gen_sym_facts eq_refl eq_refl eq_refl).
+    convertible_converts fsym m (Build_Convertible fsym m H1 H2 H3 H4 H5 H6) (conj O1 O2) gen_sym_facts eq_refl eq_refl eq_refl eq_refl).
 Qed.
 Print Assumptions C12_any_declaration_order.
 
